@@ -2,7 +2,8 @@
    /repo/signac/project.py (_sp_cache, _read_cache, _get_statepoint, _get_statepoint_from_workspace,
    _register, _update_in_memory_cache, update_cache, _job_dirs, _find_job_ids, open_job(id=...)) and
    /repo/signac/job.py (Job.__init__, Job.statepoint, _StatePointDict.load/save, Job.init, the
-   statepoint setter, Job.remove), INCLUDING their defects.  Shared by C08 and C09 (Repair.v).
+   statepoint setter, Job.remove), as of the fix: commits d7351f9, ae33aa8, 3837846, 5a38a4a, b6340e2, 270ca63.
+   Shared by C08 and C09 (Repair.v).
 
    One project whose root is the path [[]]: the workspace is [[WS]], the persistent cache file is
    [[DOTSIGNAC; FNCACHE]].  One session = one Project object: its [_sp_cache] (an insertion-ordered
